@@ -1083,8 +1083,10 @@ class Grammar(PGFile):
         # regex by the regex recognizer that match on word boundaries.
         for term in self.terminals.values():
             if isinstance(term.recognizer, StringRecognizer):
-                match = keyword_rec(term.recognizer.value, 0)
-                if match == term.recognizer.value:
+                # The whole text must be matched by the KEYWORD regex, by
+                # any of its alternatives.
+                match = term.recognizer.value
+                if keyword_rec.regex.fullmatch(match):
                     term.recognizer = RegExRecognizer(
                         rf"\b{re.escape(match)}\b",
                         ignore_case=term.recognizer.ignore_case,
